@@ -531,3 +531,199 @@ Proof.
   injection H as <-. exists ps. split; [reflexivity|].
   apply mk_matches_n_spec; auto. apply (normalize_patterns_ok _ _ _ En).
 Qed.
+(* ================= appended after the coverage audit ================= *)
+(* ---------- exception classes: build_err is 0 exactly on the well-formed expressions ---------- *)
+Lemma first_err_cons c l : first_err (c :: l) = 0 <-> c = 0 /\ first_err l = 0.
+Proof. unfold first_err. cbn [fold_right]. destruct (c =? 0) eqn:E; split; intros; lia. Qed.
+
+Lemma first_err_app l1 l2 : first_err (l1 ++ l2) = 0 <-> first_err l1 = 0 /\ first_err l2 = 0.
+Proof.
+  induction l1 as [|c l1 IH]; [cbn; tauto|].
+  rewrite <- app_comm_cons, !first_err_cons, IH. tauto.
+Qed.
+
+Lemma first_err_nil : first_err [] = 0.
+Proof. reflexivity. Qed.
+
+Lemma build_err_wf e : build_err e = 0 <-> wf_expr e = true.
+Proof.
+  induction e as [v s|i s|o a IHa|o a b IHa IHb|a lo hi IHa|a off w st IHa IHoff|l IH|t cs IHt IHcs] using expr_ind'.
+  - cbn. destruct (wf_shape s); split; intros; congruence.
+  - cbn. destruct (wf_shape s); split; intros; congruence.
+  - cbn [build_err wf_expr]. rewrite !first_err_cons, andb_true_iff, IHa.
+    assert (Hx : match o with OS => if 0 <? ewidth a then 0 else 2 | _ => 0 end = 0 <->
+                 match o with OS => 0 <? ewidth a | _ => true end = true).
+    { destruct o; try tauto. destruct (0 <? ewidth a); split; intros; try reflexivity; try lia; discriminate. }
+    rewrite Hx. pose proof first_err_nil. tauto.
+  - cbn [build_err wf_expr]. rewrite !first_err_cons, !andb_true_iff, IHa, IHb.
+    assert (Hx : match o with OShl | OShr => if sgn (shape_of b) then 1 else 0 | _ => 0 end = 0 <->
+                 match o with OShl | OShr => negb (sgn (shape_of b)) | _ => true end = true).
+    { destruct o; try tauto; destruct (sgn (shape_of b)); cbn [negb]; split; intros; try reflexivity; try lia; discriminate. }
+    rewrite Hx. pose proof first_err_nil. tauto.
+  - cbn [build_err wf_expr]. rewrite !first_err_cons, IHa.
+    destruct ((0 <=? lo) && (lo <=? hi) && (hi <=? ewidth a)) eqn:E.
+    + split; [intros [Ha _]|intros H]. { rewrite Ha. lia. } { split; [|auto using first_err_nil]. lia. }
+    + split; [intros (_ & ? & _); lia|intros H; lia].
+  - cbn [build_err wf_expr]. rewrite !first_err_cons, IHa, IHoff.
+    destruct (negb (sgn (shape_of off)) && (0 <=? w) && (1 <=? st)) eqn:E.
+    + split; [intros (Ha & Ho & _)|intros H]. { rewrite Ha, Ho. lia. } { repeat split; auto using first_err_nil; lia. }
+    + split; [intros (_ & _ & ? & _); lia|intros H; lia].
+  - cbn [build_err wf_expr]. induction IH as [|x l Hx HF IHl]; [cbn; tauto|].
+    cbn [map forallb]. rewrite first_err_cons, andb_true_iff, Hx, IHl. tauto.
+  - cbn [build_err wf_expr]. rewrite first_err_cons, first_err_app, first_err_cons, andb_true_iff, IHt.
+    assert (Hsplit : forallb (fun c => wf_expr (snd c) && match fst c with None => true | Some ps => forallb (pattern_ok (ewidth t)) ps end) cs
+                     = forallb (fun c => wf_expr (snd c)) cs && forallb (case_patterns_ok (ewidth t)) cs).
+    { clear. induction cs as [|c cs IH]; [reflexivity|]. cbn [forallb]. rewrite IH. unfold case_patterns_ok.
+      destruct (wf_expr (snd c)), (match fst c with None => true | Some ps => forallb (pattern_ok (ewidth t)) ps end),
+        (forallb (fun c0 => wf_expr (snd c0)) cs); reflexivity. }
+    rewrite Hsplit, andb_true_iff.
+    assert (Hel : first_err (map (fun c => build_err (snd c)) cs) = 0 <-> forallb (fun c => wf_expr (snd c)) cs = true).
+    { clear - IHcs. induction IHcs as [|x l Hx HF IHl]; [cbn; tauto|].
+      cbn [map forallb]. rewrite first_err_cons, andb_true_iff, Hx, IHl. tauto. }
+    rewrite Hel. destruct (forallb (case_patterns_ok (ewidth t)) cs); split.
+    + intros (? & ? & _); auto.
+    + intros (? & ? & _); auto using first_err_nil.
+    + intros (_ & _ & ? & _); lia.
+    + intros (_ & _ & ?); discriminate.
+Qed.
+
+(* ---------- Array indexing with any index shape and any number of elements ---------- *)
+Lemma array_cases_raw_unsigned w elems : 0 <= w -> forall i, 0 <= i ->
+  array_cases_raw (Sh w false) elems i = array_cases w elems i.
+Proof.
+  intros Hw. induction elems as [|x r IH]; intros i Hi; [reflexivity|].
+  cbn [array_cases_raw array_cases width]. destruct (i <? 2 ^ w) eqn:E; [|reflexivity].
+  rewrite IH by lia. unfold int_case_patterns.
+  rewrite const_norm_spec by (unfold wf_shape; cbn; lia). cbn [norm sgn width]. unfold mask.
+  rewrite Z.mod_small by lia. rewrite Z.eqb_refl. reflexivity.
+Qed.
+
+(* with an unsigned index the general construction is the one of C01_array_spec *)
+Theorem mk_array_raw_unsigned elems index : wf_shape (shape_of index) = true -> sgn (shape_of index) = false ->
+  mk_array_raw elems index = mk_array elems index.
+Proof.
+  intros Hwf Hs. unfold mk_array_raw, mk_array, ewidth. destruct (shape_of index) as [w sg] eqn:E. cbn in Hs. subst sg.
+  cbn [width]. rewrite array_cases_raw_unsigned; [reflexivity| |lia]. unfold wf_shape in Hwf. cbn in Hwf. lia.
+Qed.
+
+Definition reach (sh : shape) (k : Z) : bool := const_norm sh k =? k.
+
+Lemma array_cases_raw_spec en sh (elems : list expr) : wf_shape sh = true -> forall i t, 0 <= i -> 0 <= t < 2 ^ width sh ->
+  switch_of t (map (fun c => (fst c, denote en (snd c))) (array_cases_raw sh elems i)) =
+  if (i <=? t) && (t <? i + Z.of_nat (length elems)) && reach sh t
+  then denote en (nth (Z.to_nat (t - i)) elems (EConst 0 (Sh 0 false))) else 0.
+Proof.
+  intros Hwf. pose proof (wf_width_nonneg _ Hwf) as Hw.
+  induction elems as [|x r IH]; intros i t Hi Ht.
+  - simpl. destruct ((i <=? t) && (t <? i + 0)) eqn:E; [lia|reflexivity].
+  - cbn [array_cases_raw]. destruct (i <? 2 ^ width sh) eqn:Ei.
+    + cbn [map fst snd switch_of case_sem]. unfold int_case_patterns. fold (reach sh i).
+      destruct (bin_pattern_sem (width sh) i t Hw ltac:(lia) Ht) as [Hs _].
+      assert (Hcase : existsb (fun p => pat_sem p t) (if reach sh i then [bin_pattern (width sh) i] else []) = (t =? i) && reach sh i).
+      { destruct (reach sh i); cbn [existsb]; rewrite ?Hs; destruct (t =? i); reflexivity. }
+      rewrite Hcase. destruct (t =? i) eqn:Et.
+      * assert (t = i) by lia. subst t. cbn [andb length]. destruct (reach sh i) eqn:Er.
+        -- replace (i - i) with 0 by lia. replace ((i <=? i) && (i <? i + Z.of_nat (S (length r)))) with true by lia. reflexivity.
+        -- rewrite IH by lia. replace ((i + 1 <=? i) && (i <? i + 1 + Z.of_nat (length r))) with false by lia.
+           rewrite andb_false_r. reflexivity.
+      * cbn [andb]. rewrite IH by lia. cbn [length].
+        destruct ((i + 1 <=? t) && (t <? i + 1 + Z.of_nat (length r))) eqn:E1.
+        -- replace ((i <=? t) && (t <? i + Z.of_nat (S (length r)))) with true by lia.
+           replace (Z.to_nat (t - i)) with (S (Z.to_nat (t - (i + 1)))) by lia. reflexivity.
+        -- replace ((i <=? t) && (t <? i + Z.of_nat (S (length r)))) with false by lia. reflexivity.
+    + cbn [map switch_of]. replace ((i <=? t) && (t <? i + Z.of_nat (length (x :: r)))) with false by lia. reflexivity.
+Qed.
+
+(* which bit patterns of the index are matched by some integer key: exactly the non-negative index values *)
+Lemma reach_index sh d : wf_shape sh = true -> in_range sh d ->
+  reach sh (d mod 2 ^ width sh) = (0 <=? d) /\ (0 <= d -> d mod 2 ^ width sh = d).
+Proof.
+  intros Hwf Hr. pose proof (wf_width_nonneg _ Hwf) as Hw. pose proof (pow2_pos _ Hw) as Hp.
+  unfold reach. rewrite const_norm_spec by auto. unfold norm, in_range, wf_shape in *.
+  pose proof (Z.mod_pos_bound d (2 ^ width sh) Hp) as Hm.
+  destruct (sgn sh).
+  - pose proof (pow2_split (width sh) ltac:(lia)) as Hsp. pose proof (pow2_pos (width sh - 1) ltac:(lia)).
+    unfold sext. rewrite Z.mod_mod by lia.
+    destruct (Z_lt_le_dec d 0).
+    + assert (d mod 2 ^ width sh = d + 2 ^ width sh) as -> by (symmetry; apply (Z.mod_unique_pos _ _ (-1)); lia).
+      split; [|lia]. destruct (2 ^ (width sh - 1) <=? d + 2 ^ width sh) eqn:E; lia.
+    + rewrite Z.mod_small by lia. split; [|lia]. destruct (2 ^ (width sh - 1) <=? d) eqn:E; lia.
+  - unfold mask. rewrite Z.mod_mod by lia. rewrite Z.mod_small by lia. split; lia.
+Qed.
+
+(* Array(elems)[index] for an index of ANY shape and ANY number of elements: the element at the index when the index
+   value is a position of the list, 0 otherwise (negative values of a signed index and positions past the end) *)
+Theorem mk_array_raw_spec en elems index : wf_expr index = true -> env_ok en index ->
+  denote en (mk_array_raw elems index) =
+  if (0 <=? denote en index) && (denote en index <? Z.of_nat (length elems))
+  then denote en (nth (Z.to_nat (denote en index)) elems (EConst 0 (Sh 0 false))) else 0.
+Proof.
+  intros Hwf Henv. destruct (shape_sound en index Hwf Henv) as [Hw Hr].
+  pose proof (wf_width_nonneg _ Hw) as Hwn. pose proof (pow2_pos _ Hwn) as Hp.
+  unfold mk_array_raw. cbn [denote]. unfold ewidth.
+  rewrite (array_cases_raw_spec en (shape_of index) elems Hw 0 _ ltac:(lia) (Z.mod_pos_bound _ _ Hp)).
+  destruct (reach_index _ _ Hw Hr) as [Hre Hid]. rewrite Hre.
+  pose proof (Z.mod_pos_bound (denote en index) _ Hp) as Hm.
+  destruct (0 <=? denote en index) eqn:E0.
+  - rewrite Hid by lia. rewrite Z.sub_0_r, Z.add_0_l, andb_true_r, E0. reflexivity.
+  - rewrite andb_false_r. reflexivity.
+Qed.
+
+(* the shape the proxy reports contains the shape of the value it converts to, and the two coincide when every
+   element is addressable *)
+Lemma array_cases_raw_all sh elems : forall i, i + Z.of_nat (length elems) <= 2 ^ width sh ->
+  map snd (array_cases_raw sh elems i) = elems.
+Proof.
+  induction elems as [|x r IH]; intros i Hi; [reflexivity|].
+  cbn [array_cases_raw]. cbn [length] in Hi. replace (i <? 2 ^ width sh) with true by lia.
+  cbn [map snd]. rewrite IH by lia. reflexivity.
+Qed.
+
+Theorem array_proxy_shape_exact elems index : Z.of_nat (length elems) <= 2 ^ ewidth index ->
+  shape_of (mk_array_raw elems index) = array_proxy_shape elems.
+Proof.
+  intros H. unfold mk_array_raw, array_proxy_shape. cbn [shape_of]. rewrite <- map_map.
+  rewrite array_cases_raw_all by (unfold ewidth in H; lia). reflexivity.
+Qed.
+
+(* Value.replicate with a negative count is rejected, any other count is the replication of C01_replicate_spec *)
+Lemma mk_replicate_z_spec e c : mk_replicate_z e c = if c <? 0 then None else Some (mk_replicate e (Z.to_nat c)).
+Proof. reflexivity. Qed.
+
+(* ---------- operands that are Python ints or enumeration members ---------- *)
+(* Value.cast(v) = Const(v): a + v, v - a, v << a ... compute with the integer v itself *)
+Theorem int_operand_spec en o e v : wf_expr e = true ->
+  (match o with OShl | OShr => False | _ => True end) ->
+  wf_expr (EOp2 o e (mk_const_auto v)) = true /\ wf_expr (EOp2 o (mk_const_auto v) e) = true /\
+  denote en (EOp2 o e (mk_const_auto v)) = den_op2 o (denote en e) v /\
+  denote en (EOp2 o (mk_const_auto v) e) = den_op2 o v (denote en e).
+Proof.
+  intros Hwf Ho. destruct (const_auto_spec en v) as [Hc Hd].
+  repeat split; cbn [wf_expr denote]; rewrite ?Hwf, ?Hc, ?Hd; try reflexivity; destruct o; try reflexivity; contradiction.
+Qed.
+
+(* a shift by a Python int amount is accepted exactly when the amount is not negative; the other way round
+   (int << value) exactly when the value is unsigned *)
+Theorem int_shift_spec en o e v : wf_expr e = true -> (o = OShl \/ o = OShr) ->
+  wf_expr (EOp2 o e (mk_const_auto v)) = (0 <=? v) /\
+  wf_expr (EOp2 o (mk_const_auto v) e) = negb (sgn (shape_of e)) /\
+  denote en (EOp2 o e (mk_const_auto v)) = den_op2 o (denote en e) v /\
+  denote en (EOp2 o (mk_const_auto v) e) = den_op2 o v (denote en e).
+Proof.
+  intros Hwf Ho. destruct (const_auto_spec en v) as [Hc Hd].
+  assert (Hs : negb (sgn (shape_of (mk_const_auto v))) = (0 <=? v)).
+  { unfold mk_const_auto, const_shape. cbn. destruct (v <? 0) eqn:E; cbn; lia. }
+  repeat split; cbn [wf_expr denote]; rewrite ?Hwf, ?Hc, ?Hd; try reflexivity;
+    destruct Ho; subst o; cbn [andb]; auto.
+Qed.
+
+(* Value.cast(member) of an integer enumeration: a constant of the class's shape holding the member's value *)
+Theorem enum_const_spec en ms v : In v ms ->
+  wf_expr (mk_enum_const ms v) = true /\ denote en (mk_enum_const ms v) = v.
+Proof.
+  intros Hin. pose proof (cast_enum_represents ms v Hin) as Hr.
+  assert (Hwf : wf_shape (cast_enum ms) = true).
+  { rewrite cast_enum_is_unify. apply unify_wf. apply Forall_forall. intros s Hs. apply in_map_iff in Hs.
+    destruct Hs as (x & <- & _). apply const_shape_wf. }
+  split; [exact Hwf|]. cbn. apply norm_id; auto.
+Qed.
